@@ -1212,12 +1212,13 @@ class Frame:
             self._record(f.ident, args, kwargs, e, None, recv)
             return self._inline(f, cls, recv, args, kwargs, e)
         r = ("f", f"call:{f.ident}", ((recv,) if recv is not None else ()) + tuple(args), tuple(sorted(kwargs.items())))
-        # a non-inlined method may store to attributes of its receiver: forget them
+        # a non-inlined method may store to attributes of its receiver: forget them (the event keeps the attributes as they were at the call)
+        pre_snap = ev.snapshot(list(args) + ([recv] if recv is not None else []))
         if recv is not None:
             for attr in mod_summary(self.repo, f, cls):
                 ev.heap.pop((recv, attr), None)
                 ev.heap[(recv, attr)] = ev.opaque(f"mod:{f.name}.{attr}")
-        self._record(f.ident, args, kwargs, e, r, recv)
+        self._record(f.ident, args, kwargs, e, r, recv, snap=pre_snap)
         return r
 
     def _inline(self, f, cls, recv, args, kwargs, e):
@@ -1282,11 +1283,11 @@ class Frame:
         return T.strip_raise(subst_cont(ret, T.NONE))
 
     # ------------------------------------------------------------- events
-    def _record(self, callee, args, kwargs, e, result, recv):
+    def _record(self, callee, args, kwargs, e, result, recv, snap=None):
         ev = self.ev
         ev.events.append(
             Event(callee, tuple(args), tuple(sorted(kwargs.items())), e, self.f, result, recv, self.depth,
-                  next(ev._seq), ev.snapshot(list(args) + ([recv] if recv is not None else [])),
+                  next(ev._seq), snap if snap is not None else ev.snapshot(list(args) + ([recv] if recv is not None else [])),
                   self.outer_conds + (self.cur.conds if getattr(self, "cur", None) is not None else ()))
         )
 
